@@ -291,9 +291,9 @@ def c03(ctx):
 OBJ_MODELS = {
     'quick': dict(keys='{<<97>>, <<98>>}', vals='{0, 1}', maxlen=4,
                   bulk='{<<>>, <<Entry(<<97>>, 1), Entry(<<98>>, 0), Entry(<<97>>, 0)>>, <<Entry(<<98>>, 1), Entry(<<98>>, 1)>>}'),
-    'thorough': dict(keys='{<<97>>, <<98>>, <<99, 100>>}', vals='{0, 1}', maxlen=5,
-                     bulk='{<<>>, <<Entry(<<97>>, 1), Entry(<<98>>, 0), Entry(<<97>>, 0)>>, <<Entry(<<98>>, 1), Entry(<<98>>, 1)>>, '
-                          '<<Entry(<<99, 100>>, 0), Entry(<<97>>, 1), Entry(<<99, 100>>, 0), Entry(<<99, 100>>, 1)>>}'),
+    'thorough': dict(keys='{<<65535>>, <<65536>>, <<99, 100>>}', vals='{0, 1}', maxlen=5,
+                     bulk='{<<>>, <<Entry(<<65535>>, 1), Entry(<<65536>>, 0), Entry(<<65535>>, 0)>>, <<Entry(<<65536>>, 1), Entry(<<65536>>, 1)>>, '
+                          '<<Entry(<<99, 100>>, 0), Entry(<<65535>>, 1), Entry(<<99, 100>>, 0), Entry(<<99, 100>>, 1)>>}'),
 }
 
 
@@ -306,7 +306,7 @@ def object_graph(ctx):
 
 def object_walks(ctx):
     """random walks of the object model far beyond the BFS bound (4 keys, up to 10 entries, depth 40 / 100; every enabled operation of every visited state is printed)"""
-    consts = {'Keys': '{<<97>>, <<98>>, <<99, 100>>, <<>>}', 'Absent': '<<122>>', 'Vals': '{0, 1, 2}',
+    consts = {'Keys': '{<<97>>, <<65535>>, <<65536>>, <<>>}', 'Absent': '<<122>>', 'Vals': '{0, 1, 2}',
               'Bulk': '{<<>>, <<Entry(<<97>>, 1), Entry(<<98>>, 0), Entry(<<97>>, 0)>>}'}
     inst = 'MCI_object_walks'
     mod = vp.instance_module(inst, 'MC_Object', consts)
